@@ -53,6 +53,32 @@ class Class:
     bases: list[str]
 
 
+def _drop_absorbed(node, prefix, absorbed):
+    """Remove the definitions of helpers that sa/deextract.py inlined back at every call site: their code is analysed where
+    it is used, and rules that walk the whole module tree must not see it twice."""
+    for field in ("body", "orelse", "finalbody"):
+        lst = getattr(node, field, None)
+        if not isinstance(lst, list):
+            continue
+        keep = []
+        for ch in lst:
+            if isinstance(ch, (ast.FunctionDef, ast.AsyncFunctionDef)):
+                q = f"{prefix}{ch.name}"
+                if q in absorbed:
+                    continue
+                _drop_absorbed(ch, q + ".<locals>.", absorbed)
+            elif isinstance(ch, ast.ClassDef):
+                _drop_absorbed(ch, f"{prefix}{ch.name}.", absorbed)
+            else:
+                _drop_absorbed(ch, prefix, absorbed)
+            keep.append(ch)
+        if not keep and lst and field == "body":
+            keep = [ast.copy_location(ast.Pass(), lst[0])]
+        setattr(node, field, keep)
+    for h in getattr(node, "handlers", []) or []:
+        _drop_absorbed(h, prefix, absorbed)
+
+
 class Module:
     def __init__(self, rel: str, src: str):
         self.rel = rel
@@ -67,14 +93,22 @@ class Module:
         if not os.environ.get("VERIF_NO_DEEXTRACT"):
             from sa.dename import _ref
             if (_ref().get(rel) or {}).get("#digest") != digest:
-                from sa.dename import refunc
+                from sa.dename import refunc, reattr, reconst
                 self.refunced = refunc(self.tree, rel)
+                self.reattred = reattr(self.tree, rel)
+                self.reconsted = reconst(self.tree, rel)
                 from sa.deextract import deextract
                 self.deextracted, self.absorbed = deextract(self.tree, rel)
+                if self.absorbed:
+                    _drop_absorbed(self.tree, "", self.absorbed)
         self.denamed = 0
         if not os.environ.get("VERIF_NO_DENAME"):
             from sa.dename import dename
             self.denamed = dename(self.tree, rel, hashlib.sha256(src.encode("utf-8")).hexdigest())
+            if self.denamed is not None and (_refd := __import__("sa.dename", fromlist=["_ref"])._ref().get(rel) or {}).get("#digest") != digest \
+                    and not os.environ.get("VERIF_NO_DETEMP"):
+                from sa.dename import detemp
+                self.detemped = detemp(self.tree, rel)
         if not os.environ.get("VERIF_NO_CANON"):
             from sa.canon import canonicalise
             self.tree = canonicalise(self.tree)
